@@ -1,5 +1,6 @@
 mod engine;
 mod grids;
+mod isolate;
 mod props;
 mod real;
 mod refmodel;
@@ -99,6 +100,12 @@ fn main() {
             "--hash-out" => {
                 i += 1;
                 hash_out = args.get(i).cloned();
+            }
+            "--ladder-worker" => {
+                let construct = args.get(i + 1).cloned().unwrap_or_else(|| usage());
+                let depth: usize = args.get(i + 2).and_then(|s| s.parse().ok()).unwrap_or_else(|| usage());
+                let stack = args.get(i + 3).and_then(|s| s.parse::<usize>().ok());
+                std::process::exit(props::c01::ladder_worker(&construct, depth, stack));
             }
             "--replay" => {
                 i += 1;
